@@ -104,6 +104,16 @@ def check_wif(case):
             cls.append("nt:suffix>=57-bytes")  # the WIF string is then longer than 128 characters
         ver = (0x80 if net == "mainnet" else 0xEF) + WIF_TYPES.index(typ)
         want = rb58.check_encode(bytes([ver]) + key + data)
+        if key[-1] & 1:
+            # history: the same key is first encoded for another address type, network and suffix (and that string decoded
+            # in both forms); nothing remembered from those calls may show in this one
+            t2 = WIF_TYPES[(WIF_TYPES.index(typ) + 1 + key[-2] % (len(WIF_TYPES) - 1)) % len(WIF_TYPES)]
+            n2 = "testnet" if net == "mainnet" else "mainnet"
+            e2 = attempt(bits.wif_encode, key, addr_type=t2, network=n2, data=data[::-1] + b"\x01")
+            if isinstance(e2, (bytes, str)):
+                attempt(bits.wif_decode, e2)
+                attempt(bits.wif_decode, e2, return_dict=True)
+            cls.append("nt:after-same-key-other-type-network-suffix")
         enc = attempt(bits.wif_encode, key, addr_type=typ, network=net, data=data)
         if not f.expect(enc == want, "wif/encode-ne-reference", repr(enc)[:80]):
             return cls, f
@@ -377,7 +387,7 @@ def _targets(tier):
         Target("sec1-accept", check_accept, strategy=lambda tier: accept_cases(), budget={"quick": 4000, "thorough": 80000},
                required=["nt:len65-prefix02", "nt:len33-prefix04", "nt:hybrid", "nt:x>=p", "nt:nonresidue", "nt:y-negated", "nt:coord-aliased", "nt:after-decoding-valid-base", "expect-accept", "expect-reject"]),
         Target("wif", check_wif, strategy=lambda tier: wif_cases(), budget={"quick": 3000, "thorough": 60000},
-               required=["nt:key-31-leading-zero-bytes", "nt:suffix", "nt:suffix>=57-bytes", "nt:wif-unknown-version", "nt:wif-mutated", "nt:bad-key-len", "nt:bad-key-range"]),
+               required=["nt:key-31-leading-zero-bytes", "nt:suffix", "nt:suffix>=57-bytes", "nt:after-same-key-other-type-network-suffix", "nt:wif-unknown-version", "nt:wif-mutated", "nt:bad-key-len", "nt:bad-key-range"]),
         Target("pem", check_pem, strategy=lambda tier: pem_cases(), budget={"quick": 320, "thorough": 6000},
                required=["nt:pem-priv", "nt:pem-openssl-priv", "nt:pem-openssl-pub", "nt:pem-openssl-priv-compressed", "nt:pem-openssl-pub-compressed", "nt:key-leading-zeros", "nt:pem-der-ends-in-whitespace-or-nul"] if HAVE_OPENSSL else ["nt:pem-priv", "nt:pem-der-ends-in-whitespace-or-nul"]),
         Target("pem-fixed", check_pem, enumerate_=enum_pem_corpus, shards=4),
